@@ -81,6 +81,10 @@ type emitter struct {
 	//    result in an invalid behavior.
 	alreadyInitializedVars map[*ast.Identifier]int16
 
+	// alreadyEmittedVarDecls keeps track of the package-level variable
+	// declarations whose initialization has already been emitted.
+	alreadyEmittedVarDecls map[*ast.Var]bool
+
 	// alreadyInitializedTemplatePkgs keeps track of the template packages for
 	// which the initialization code has already been emitted.
 	alreadyInitializedTemplatePkgs map[string]bool
@@ -101,6 +105,7 @@ func newEmitter(typeInfos map[ast.Node]*typeInfo, formatTypes map[ast.Format]ref
 		types:                          types.NewTypes(), // TODO: this is wrong: the instance should be taken from the type checker.
 		alreadyEmittedFuncs:            map[*ast.Func]*runtime.Function{},
 		alreadyInitializedVars:         map[*ast.Identifier]int16{},
+		alreadyEmittedVarDecls:         map[*ast.Var]bool{},
 		alreadyInitializedTemplatePkgs: map[string]bool{},
 	}
 	em.fnStore = newFunctionStore(em)
@@ -195,6 +200,17 @@ func (em *emitter) emitPackage(pkg *ast.Package, extendingFile bool, path string
 	var initVarsFb *functionBuilder
 	for _, dec := range pkg.Declarations {
 		if n, ok := dec.(*ast.Var); ok {
+			if em.alreadyEmittedVarDecls[n] {
+				// The package has already been emitted for another file
+				// that imports it: its variables are initialized once.
+				for _, v := range n.Lhs {
+					if index, ok := em.alreadyInitializedVars[v]; ok {
+						vars[v.Name] = index
+					}
+				}
+				continue
+			}
+			em.alreadyEmittedVarDecls[n] = true
 			// If the package has some variable declarations, a special "init"
 			// function must be created to initialize them. "$initvars" is
 			// used because is not a valid Go identifier, so there's no risk
